@@ -213,4 +213,134 @@ Proof.
 Qed.
 End Quad2D.
 
+(* ------------------------------------------------------------------------------------------ *)
+(** * rigid rotation from the coefficient condition (general path) *)
+Lemma pol_twopi_pos pi_ : 0 < pi_ -> 0 < pol_twopi F K pi_.
+Proof.
+  intros [Hp Hpn]. unfold pol_twopi. destruct (sp_two_pos F K HK) as [H2 H2n]. unfold sp_two in *. split.
+  - apply (spl_mul_nonneg K HK); assumption.
+  - intros E0. symmetry in E0. revert E0. apply (sp_mul_ne0 F K HK); intros E0; [apply H2n|apply Hpn]; symmetry; exact E0.
+Qed.
+
+Section RigidCoeffs.
+Variable feq : F -> F -> F.
+Variable pi_ : F.
+Variables (dt v B0 : F).
+Variable nul : bool.
+Variables (rPts qPts : list F).
+Variables (kq : list F) (dq : nat) (kr : list F) (dr' : nat).
+Notation dr := (S dr').
+Variable cphi : list (list F).
+Variable pol : pol_spl F.
+Variable omega : F.
+Notation E := (pol_nu_ev F K).
+Notation phi := (PolSpl kq dq kr dr cphi).
+Notation nq := (pol_nq F qPts).
+Notation nr := (pol_nr F rPts).
+Notation twopi := (pol_twopi F K pi_).
+Notation qi i := (nth i qPts 0).
+Notation rj j := (nth j rPts 0).
+Notation mq i := (pol_modv F K (qi i - omega * (dt / B0)) twopi).
+
+Hypothesis Htr : sp_trunc_ok F K.
+Hypothesis HB : speqb K B0 0 = false.
+Hypothesis Hpipos : 0 < pi_.
+Hypothesis Hne : rPts <> [].
+Hypothesis Hr : forall j, (j < nr)%nat -> speqb K (rj j) 0 = false /\
+  pol_inside F K (hd 0 rPts) (last rPts 0) (rj j) = true.
+(** the spline space of the potential: theta on [0, 2 pi], degree >= 1; r of degree >= 2 *)
+Hypothesis Hsq : pol_space_ok kq dq.
+Hypothesis Hsr : pol_space_ok kr dr.
+Hypothesis Hdq : (1 <= dq)%nat.
+Hypothesis Hdr : (1 <= dr')%nat.
+Hypothesis Hq0 : kn kq dq = 0.
+Hypothesis Hq1 : kn kq (length kq - 1 - dq) = twopi.
+(** the nodes lie in the domain of the space *)
+Hypothesis Hqdom : forall i, (i < nq)%nat -> pol_in_dom kq dq (qi i).
+Hypothesis Hrdom : forall j, (j < nr)%nat -> pol_in_dom kr dr (rj j).
+(** phi = omega r^2/2: its coefficients *)
+Hypothesis Hc : pol_quad_coeffs kq dq kr dr omega cphi.
+(** the value of the spline of f at the rotated point *)
+Variable fv : nat -> nat -> F.
+Hypothesis Hf : forall i j, (i < nq)%nat -> (j < nr)%nat ->
+  pol_scalar F E pol (pol_modv F K (mq i) twopi) (rj j) 0%nat 0%nat = SpOk (fv i j).
+
+Lemma pol_rc_twopi_eqb : speqb K twopi 0 = false.
+Proof. destruct (sp_eqb_spec F K HK twopi 0) as [E0|]; [|reflexivity]. exfalso. apply (proj2 (pol_twopi_pos pi_ Hpipos)). symmetry. exact E0. Qed.
+
+Lemma pol_rc_mq_dom i : pol_in_dom kq dq (mq i).
+Proof.
+  destruct (pol_mod_range_thm F K HK (qi i - omega * (dt / B0)) twopi Htr (pol_twopi_pos pi_ Hpipos)) as [y [Hy [H0 H1]]].
+  rewrite (pol_mod_modv F K _ _ pol_rc_twopi_eqb) in Hy. injection Hy as <-.
+  unfold pol_in_dom. rewrite Hq0, Hq1. split; [exact H0|exact (proj1 H1)].
+Qed.
+
+Definition pol_rc_D1 : list (list F) := map (fun _ : F => map (fun y => omega * y) rPts) qPts.
+Definition pol_rc_D2 : list (list F) := map (fun _ : F => map (fun _ : F => 0) rPts) qPts.
+
+Lemma pol_rc_in_q x : In x qPts -> pol_in_dom kq dq x.
+Proof. intros Hin. destruct (In_nth _ _ 0 Hin) as [i [Hi <-]]. apply Hqdom, Hi. Qed.
+Lemma pol_rc_in_r y : In y rPts -> pol_in_dom kr dr y.
+Proof. intros Hin. destruct (In_nth _ _ 0 Hin) as [j [Hj <-]]. apply Hrdom, Hj. Qed.
+
+Lemma pol_rc_cross1 : pol_cross F E rPts qPts phi 0%nat 1%nat = SpOk pol_rc_D1.
+Proof.
+  unfold pol_cross. cbn [pe_cross pol_nu_ev ps_k1 ps_d1 ps_k2 ps_d2 ps_c].
+  apply (sp_nu_eval_2d_cross_eq_grid F K qPts rPts kq dq kr dr cphi 0 1 (fun _ y => omega * y)); [lia|lia|exact Hne|].
+  intros x y Hx Hy. exact (proj1 (pol_quad_scalar kq dq kr dr' omega cphi Hsq Hsr Hdq Hdr Hc x y (pol_rc_in_q x Hx) (pol_rc_in_r y Hy))).
+Qed.
+Lemma pol_rc_cross2 : pol_cross F E rPts qPts phi 1%nat 0%nat = SpOk pol_rc_D2.
+Proof.
+  unfold pol_cross. cbn [pe_cross pol_nu_ev ps_k1 ps_d1 ps_k2 ps_d2 ps_c].
+  apply (sp_nu_eval_2d_cross_eq_grid F K qPts rPts kq dq kr dr cphi 1 0 (fun _ _ => 0)); [lia|lia|exact Hne|].
+  intros x y Hx Hy. exact (proj2 (pol_quad_scalar kq dq kr dr' omega cphi Hsq Hsr Hdq Hdr Hc x y (pol_rc_in_q x Hx) (pol_rc_in_r y Hy))).
+Qed.
+
+Lemma pol_rc_at1 i j : (i < nq)%nat -> (j < nr)%nat -> pol_at F K pol_rc_D1 i j = omega * rj j.
+Proof.
+  intros Hi Hj. unfold pol_at, pol_rc_D1.
+  rewrite (pol_nth_map' (fun _ : F => map (fun y => omega * y) rPts) qPts i 0 []) by exact Hi.
+  rewrite (pol_nth_map' (fun y => omega * y) rPts j 0 0) by exact Hj. reflexivity.
+Qed.
+Lemma pol_rc_at2 i j : (i < nq)%nat -> (j < nr)%nat -> pol_at F K pol_rc_D2 i j = 0.
+Proof.
+  intros Hi Hj. unfold pol_at, pol_rc_D2.
+  rewrite (pol_nth_map' (fun _ : F => map (fun _ : F => 0) rPts) qPts i 0 []) by exact Hi.
+  rewrite (pol_nth_map' (fun _ : F => 0) rPts j 0 0) by exact Hj. reflexivity.
+Qed.
+
+Lemma pol_rc_scalars i j : (i < nq)%nat -> (j < nr)%nat ->
+  pol_scalar F E phi (mq i) (rj j) 0%nat 1%nat = SpOk (omega * rj j) /\
+  pol_scalar F E phi (mq i) (rj j) 1%nat 0%nat = SpOk 0.
+Proof.
+  intros Hi Hj. unfold pol_scalar. cbn [pe_scalar pol_nu_ev ps_k1 ps_d1 ps_k2 ps_d2 ps_c].
+  exact (pol_quad_scalar kq dq kr dr' omega cphi Hsq Hsr Hdq Hdr Hc (mq i) (rj j) (pol_rc_mq_dom i) (Hrdom j Hj)).
+Qed.
+
+(** rigid rotation from the coefficients, explicit scheme *)
+Theorem pol_rigid_expl_from_coeffs :
+  pol_step_expl F K E feq pi_ dt v B0 nul rPts qPts phi pol
+  = SpOk (pol_rigid_result F K pi_ dt B0 rPts qPts omega fv).
+Proof.
+  exact (pol_rigid_expl F K HK E feq pi_ dt v B0 nul rPts qPts phi pol omega HB pol_rc_twopi_eqb Hne Hr
+           pol_rc_D1 pol_rc_D2 pol_rc_cross1 pol_rc_cross2
+           (pol_grid_ok_of_sound F K E rPts qPts phi 0 1 _ (pol_nu_ev_sound F K) pol_rc_cross1)
+           (pol_grid_ok_of_sound F K E rPts qPts phi 1 0 _ (pol_nu_ev_sound F K) pol_rc_cross2)
+           pol_rc_at1 pol_rc_at2 pol_rc_scalars fv Hf).
+Qed.
+
+(** implicit scheme: one sweep *)
+Theorem pol_rigid_impl_from_coeffs tol fuel : 0 <= tol ->
+  pol_step_impl F K E feq pi_ dt v B0 nul rPts qPts phi pol tol (S fuel)
+  = PolRet (SpOk (pol_rigid_result F K pi_ dt B0 rPts qPts omega fv, 1%nat)).
+Proof.
+  intros Htol.
+  exact (pol_rigid_impl F K HK E feq pi_ dt v B0 nul rPts qPts phi pol omega HB pol_rc_twopi_eqb Hne Hr
+           pol_rc_D1 pol_rc_D2 pol_rc_cross1 pol_rc_cross2
+           (pol_grid_ok_of_sound F K E rPts qPts phi 0 1 _ (pol_nu_ev_sound F K) pol_rc_cross1)
+           (pol_grid_ok_of_sound F K E rPts qPts phi 1 0 _ (pol_nu_ev_sound F K) pol_rc_cross2)
+           pol_rc_at1 pol_rc_at2 pol_rc_scalars fv Hf tol Htol (proj1 Hpipos) fuel).
+Qed.
+End RigidCoeffs.
+
 End PolQuad.
